@@ -252,13 +252,26 @@ def check_structure_factor(st, env, cp, hkl, E, debye, rel, builtin):
 MILLER = hs.integers(-6, 6)
 E_ST = hs.one_of(hs.floats(-1.0, math.log10(200.0)).map(lambda x: 10.0 ** x), hs.sampled_from([0.1, 1.0, 8.0, 8.047, 17.479, 200.0]))
 DEBYE = hs.one_of(hs.just(1.0), hs.floats(0.05, 1.0), hs.sampled_from([0.0, -1.0]))
-REL = hs.floats(0.01, 2.0)
+REL = hs.one_of(hs.floats(0.01, 2.0), hs.floats(0.01, 2.0), hs.sampled_from([0.0, -0.0, 1.0, -0.5, 1e-9]))
 
 
 @hs.composite
 def cell_strategy(draw):
     a, b, c = [draw(hs.floats(2.0, 30.0)) for _ in range(3)]
-    al = draw(hs.one_of(hs.just(90.0), hs.floats(50.0, 130.0)))
+    # angles: generic values and the exact crystallographic ones (30, 45, 60, 90, 120, 135, 150 degrees: rhombohedral / primitive fcc, hexagonal
+    # and monoclinic settings), for which an implementation might take a shortcut
+    special = hs.sampled_from([30.0, 45.0, 60.0, 90.0, 120.0, 135.0, 150.0])
+    kind = draw(hs.integers(0, 9))
+    if kind == 0:
+        # all three angles special and valid as a triple: rhombohedral alpha=beta=gamma in {60, 90}, hexagonal in both settings, monoclinic
+        al, be, ga = draw(hs.sampled_from([(60.0, 60.0, 60.0), (90.0, 90.0, 60.0), (90.0, 90.0, 120.0), (90.0, 60.0, 90.0), (60.0, 90.0, 90.0), (90.0, 120.0, 90.0),
+                                          (90.0, 90.0, 30.0), (90.0, 150.0, 90.0), (45.0, 90.0, 90.0), (60.0, 60.0, 90.0), (90.0, 90.0, 90.0), (30.0, 90.0, 90.0)]))
+        natom = draw(hs.integers(1, 8))
+        atoms = []
+        for _ in range(natom):
+            atoms.append((draw(hs.integers(1, 98)), draw(hs.one_of(hs.just(1.0), hs.floats(0.05, 1.0))), draw(hs.floats(0.0, 1.0)), draw(hs.floats(0.0, 1.0)), draw(hs.floats(0.0, 1.0))))
+        return (a, b, c, al, be, ga), atoms
+    al = draw(hs.one_of(hs.just(90.0), hs.floats(50.0, 130.0), special))
     be = draw(hs.one_of(hs.just(90.0), hs.floats(50.0, 130.0)))
     t = draw(hs.one_of(hs.just(None), hs.floats(-0.98, 0.98)))
     ca, cb = cosd(al), cosd(be)
